@@ -77,7 +77,7 @@ type cval struct {
 
 var condValues = []cval{
 	{`1`, 1}, {`1.5`, 1.5}, {`"1"`, "1"}, {`a`, "a"}, {`true`, true}, {`[1, a]`, []any{1, "a"}}, {`""`, ""},
-	{`false`, false}, {`["1", a]`, []any{"1", "a"}}, {`[1, 2]`, []any{1, 2}},
+	{`false`, false}, {`["1", a]`, []any{"1", "a"}}, {`[1, 2]`, []any{1, 2}}, {`".*"`, ".*"},
 }
 
 const (
